@@ -145,7 +145,6 @@ Definition apply_order1 (o : dop) (s : sm) (order1 : list (var * sm)) : list (va
   let current := combine_partials Nat.eqb Nat.eqb (d_order1 o) partials in
   accumulate Nat.eqb (previous, true) [current].
 
-(* Python dict comprehension {Pair(p1,p2): c1*c2 ...}: a later entry with the same key OVERWRITES *)
 Definition dict_set {Kt V} (eqb : Kt -> Kt -> bool) (k : Kt) (v : V) (d : list (Kt * V)) : list (Kt * V) :=
   aupsert eqb k v (fun _ => v) d.
 
@@ -159,11 +158,13 @@ Definition apply_order2 (o : dop) (s : sm) (order1 : list (var * sm)) (order2 : 
   let coefterm := combine_partials pair_eqb Nat.eqb (d_order2 o) partials1 in
   (* second derivatives of the operator *)
   let partials2 := filter_some (map (fun pq => (pq, derive2 o s pq)) (parameters_order2 o)) in
+  (* coeffs[Pair(p1,p2)] = coeffs.get(Pair(p1,p2), 0) + c1*c2 : colliding products accumulate *)
   let coeffs2 := map (fun vc =>
       let '(v1, v2) := fst vc in
       (Pair v1 v2,
        fold_left (fun d p1 => fold_left (fun d p2 =>
-           dict_set pair_eqb (Pair (fst p1) (fst p2)) (kmul (snd p1) (snd p2)) d) (order1_get o v2) d)
+           aupsert pair_eqb (Pair (fst p1) (fst p2)) (kadd k0 (kmul (snd p1) (snd p2)))
+                   (fun old => kadd old (kmul (snd p1) (snd p2))) d) (order1_get o v2) d)
          (order1_get o v1) [])) (d_order2 o) in
   let current := combine_partials pair_eqb pair_eqb coeffs2 partials2 in
   (* cross terms: first derivative of the operator on previous first-order partials *)
